@@ -130,6 +130,7 @@ def run_corpus(case):
   D = _rng.Digest()
   stats = {"fault_counts": {"family.corpus": 1}, "schedules": [], "sim_cycles": 0,
            "probes": {"designs_with_subcomponents": 0, "designs_with_structs": 0, "blocks_ge_12": 0}}
+  stats["probes"].update({k: 0 for k in C.shape_probes({"comps": {}, "structs": {}})})
   make = S.build_instances({"family": "corpus", "name": case["name"]})
   traces = []
   for sched, sseed, fseed in case["scheds"]:
@@ -220,6 +221,7 @@ def run_case(case):
   stats["probes"] = {"designs_with_subcomponents": int(len(case["spec"]["comps"]) > 1),
                      "designs_with_structs": int(bool(case["spec"]["structs"])),
                      "blocks_ge_12": int(nblk >= 12)}
+  stats["probes"].update(C.shape_probes(case["spec"]))
   return {"violations": viols, "digest": D.hex(), "nontrivial": nblk >= 3 and nfault > 0 and nz,
           "stats": stats}
 
